@@ -160,6 +160,15 @@ def connectS (P : Params) (s : S) (a b : Nat) : S × Option Err :=
 def disconnectS (P : Params) (s : S) (a b : Nat) : S :=
   { s with conns := (disconnect1 (toG P s) a b).conns }
 
+/-- `a.connect(b₁, b₂, …)`: one partner after the other, in the order of the call; every effective one is
+prepended, so the LAST partner listed ends up first; the first refusal escapes, the earlier partners stay -/
+def connectMany (P : Params) (s : S) (a : Nat) : List Nat → S × Option Err
+  | [] => (s, none)
+  | b :: bs =>
+    match connectS P s a b with
+    | (s', none) => connectMany P s' a bs
+    | (s', some e) => (s', some e)
+
 /-! ## fetch -/
 
 /-- the loop of `InputData.fetch`: value of the first connection that is not `NOT_DATA` -/
@@ -610,6 +619,7 @@ inductive Op
   | fetchAll (n : Nat)
   | link (a : Nat) (b : Option Nat)
   | connect (a b : Nat)
+  | connectMany (a : Nat) (bs : List Nat)
   | disconnect (a b : Nat)
   | copyValues (failHard : Bool) (pin pout : List (Option Nat × Nat))
   | run (n : Nat) (kw : List (Nat × Arg))
@@ -635,6 +645,7 @@ def step (P : Params) (fuel : Nat) (s : S) : Op → S × Out
   | .fetchAll n => wrap (fetchAll P fuel s (s.ins n))
   | .link a b => wrap (link P fuel s a b)
   | .connect a b => wrap (connectS P s a b)
+  | .connectMany a bs => wrap (connectMany P s a bs)
   | .disconnect a b => (disconnectS P s a b, .ok)
   | .copyValues fh pin pout => wrap (copyValues P fuel fh s pin pout)
   | .run n kw => runAny P fuel fuel s n kw
